@@ -12,16 +12,25 @@ import (
 //
 //	rangeindex.loop: t1 = phi [pre: -1, body: t2]; t2 = t1 + 1; t3 = t2 < tlen; if t3 ...
 func rangeInfo(h *ssa.BasicBlock) (phi *ssa.Phi, lenV ssa.Value, ok bool) {
-	if h.Comment != "rangeindex.loop" || len(h.Instrs) < 4 {
+	if h.Comment != "rangeindex.loop" {
 		return nil, nil, false
 	}
-	p, ok1 := h.Instrs[0].(*ssa.Phi)
-	inc, ok2 := h.Instrs[1].(*ssa.BinOp)
-	cmp, ok3 := h.Instrs[2].(*ssa.BinOp)
-	if !ok1 || !ok2 || !ok3 || inc.Op != token.ADD || inc.X != p || cmp.Op != token.LSS || cmp.X != inc {
-		return nil, nil, false
+	for _, in := range h.Instrs {
+		cmp, ok := in.(*ssa.BinOp)
+		if !ok || cmp.Op != token.LSS {
+			continue
+		}
+		inc, ok := cmp.X.(*ssa.BinOp)
+		if !ok || inc.Op != token.ADD {
+			continue
+		}
+		p, ok := inc.X.(*ssa.Phi)
+		if !ok || p.Block() != h {
+			continue
+		}
+		return p, cmp.Y, true
 	}
-	return p, cmp.Y, true
+	return nil, nil, false
 }
 
 func (fr *Frame) loopOrdinal(h *ssa.BasicBlock) int {
